@@ -4,7 +4,10 @@
 
     [adv = true] is the code with the fix "the checkpoint advances past every header of the batch, failed ones are
     recorded in the failed set" (branch fix-c14-1); [adv = false] is the code before the fix, where lastPrunedHeader
-    only follows successful prunes (kept to state the refuted termination theorem). *)
+    only follows successful prunes (kept to state the refuted termination theorem).
+    The model also follows fix-c14-2 (stacked on fix-c14-1): when the header store's tail has moved past the checkpoint,
+    the checkpoint is put right below the tail and the search hands the tail header back too (see [last_pruned], Find.v
+    [prepend]); before it the block at the new tail was skipped for good. *)
 From Coq Require Import List ZArith Bool.
 From CN Require Import Pruner.Find.
 Import ListNotations.
@@ -47,14 +50,15 @@ Record world := mkW { w_st : store; w_mem : cp; w_disk : cp; w_att : att }.
 Definition cut_of (c : cfg) (st : store) : Z :=
   match head_of st with Some hd => snd hd - window c | None => 0 end.
 
-(** checkpoint.go lastPruned(): the header the cycle starts after; moves the checkpoint up to the store's tail *)
+(** checkpoint.go lastPruned(): the header the cycle starts after.  When the store's tail has moved past the checkpoint the
+    checkpoint is put right below the tail (the block at the tail is not pruned yet, fix-c14-2) *)
 Definition last_pruned (st : store) (m : cp) : option (hdr * cp) :=
   match tail_of st with
   | None => None
   | Some tl =>
     if fst tl <? lp m
     then match get st (lp m) with Some x => Some (x, m) | None => None end
-    else Some (tl, mkCp (fst tl) (filter (fun h => fst tl <=? h) (failed m)))
+    else Some (tl, mkCp (if lp m <? fst tl then fst tl - 1 else lp m) (filter (fun h => fst tl <=? h) (failed m)))
   end.
 
 (** retryFailed: every failed height whose header is still in the store is handed to Prune again *)
@@ -88,7 +92,7 @@ Fixpoint loop (adv : bool) (F : oracle) (c : cfg) (fuel : nat) (st : store) (lph
   match fuel with
   | O => OutOfFuel
   | S f =>
-    match find c st lph with
+    match find c st (lp m) lph with
     | OutOfFuel => OutOfFuel
     | Err => Ok (m, d, a, acc)
     | Ok [] => Ok (m, d, a, acc)
